@@ -93,7 +93,7 @@ def _replay_chunk(args):
                 cands = calls[0]["before"] if calls else list(res)
                 surv = calls[0]["after"] if calls else list(res)
                 exp = it["res"]
-                shift = nz * dz if (p["pz"] and not it["spanning"]) else 0.0
+                shift = nz * dz if it["shifted"] else 0.0
                 if len(cands) != len(exp):
                     fails.append(f"{len(cands)} candidates for {len(exp)} on-axis components")
                 else:
@@ -101,7 +101,7 @@ def _replay_chunk(args):
                         vol = math.pi * dr * dr * dz * e["w"]
                         if abs(d.volume - vol) > 1e-9 * vol:
                             fails.append("volume differs from total cell volume of the component")
-                        z = z0 + dz * (Fraction(e["sz"], e["vc"]) + Fraction(1, 2)) - shift
+                        z = z0 + dz * (Fraction(e["pn"], e["pd"]) + Fraction(1, 2)) - shift
                         if abs(float(d.position[2]) - float(z)) > 1e-9 * max(1.0, nz * dz):
                             fails.append(f"axial position {float(d.position[2])} != centre of the component {float(z)}")
                         if d.position[0] != 0 or d.position[1] != 0:
@@ -178,9 +178,14 @@ def run_c01(out):
 
 
 def run_c02(out):
-    # the central filter with a closed interval (implementation before the repair of F18) is refuted by TLC
-    r0 = core.tlc("MC_LocateSym", "MC_LocateSym_dev_cylp_closed.cfg", timeout=600)
-    if r0.violated != "PeriodicCorrect":
-        raise core.MachineryError(f"closed central filter should violate PeriodicCorrect, got {r0.violated}")
-    out.parts["closed_central_filter_refuted_by_TLC"] = {"violated": r0.violated, "states": r0.generated}
+    # earlier designs of the implementation are refuted by TLC: the central filter with a closed interval (before the
+    # repair of F18), abandoning the padded analysis when a cluster winds around the axis (F21).  Recorded as an
+    # observation only: under the reading "centre of mass = volume-weighted" the unweighted axial mean is refuted
+    for cfg, inv, key in (("dev_cylp_closed", "PeriodicCorrect", "closed_central_filter"),
+                          ("dev_cylp_fallback", "PeriodicCorrect", "fallback_on_winding_cluster"),
+                          ("dev_cyl_count", "SingleCorrect", "observation_volume_weighted_reading")):
+        r0 = core.tlc("MC_LocateSym", f"MC_LocateSym_{cfg}.cfg", timeout=600)
+        if r0.violated != inv:
+            raise core.MachineryError(f"{cfg} should violate {inv}, got {r0.violated}")
+        out.parts[key + "_refuted_by_TLC"] = {"violated": r0.violated, "states": r0.generated}
     _run(out, C02_QUICK if out.tier == "quick" else C02_THOROUGH)
